@@ -127,7 +127,7 @@ def c18_checks(run, runs, xs, args):
                         "%d state(s) passed to the user's call-backs lie outside the bounds (largest overshoot %.3e)%s (%s)" % (r["outside"], r["overshoot"], "; the returned state is outside the bounds" if r["retout"] else "", describe(r)), pay)
         elif r["maxit"] > 0 and r["it"] > r["maxit"]:
             run.finding("iterations:%s" % r["algo"], "counterexample", "%d iterations reported with a maximum of %d (%s)" % (r["it"], r["maxit"], describe(r)), pay)
-        elif not invalid and not close(r["rep"], r["true"]):
+        elif not invalid and not (r["rep"] == r["true"] or (math.isnan(r["rep"]) and math.isnan(r["true"]))):
             run.finding("reported-cost:%s" % r["algo"], "counterexample", "cost_function() = %.17g but the cost function at the returned state is %.17g (status %s; %s)" % (r["rep"], r["true"], STATUS.get(r["status"]), describe(r)), pay)
         elif not invalid and r["true"] > r["starttrue"] + 1e-9 * abs(r["starttrue"]) + 1e-12:
             run.finding("monotone:%s" % r["algo"], "counterexample", "the cost at the returned state, %.17g, exceeds the cost at the (projected) start, %.17g (%s)" % (r["true"], r["starttrue"], describe(r)), pay)
@@ -239,11 +239,14 @@ def correspondence(run, runs, args, stats):
     for r, why, line in pending:
         g = [t.strip() for t in line.split("|")]
         margin = float(g[3]) if len(g) > 3 else 1.0
-        if margin < 1e-9:
+        # conjugate gradient on non-convex problems runs for tens of iterations, over which last-bit differences (summation
+        # order of the dot products in the vectorized library) are amplified: a decision taken with a relative margin below
+        # 1e-6 may legitimately go the other way; the Levenberg runs are short and keep 1e-9
+        if margin < (1e-9 if r["algo"].startswith("Levenberg") else 1e-6):
             stats["lm_near_tie"] += 1
             continue
         run.finding("correspondence:%s" % r["algo"], "broken-obligation",
-                    "the Levenberg model (Minim.v, to which the theorems of Properties_C18.v / C19.v apply) no longer reproduces the implementation: %s (%s)" % (why, describe(r)),
+                    "the model of this driver (Minim.v / MinimCG.v, to which the theorems of Properties_C18.v / C19.v apply) no longer reproduces the implementation: %s (%s)" % (why, describe(r)),
                     {"harness_args": args, "case": r["case"], "algo": r["algo"], "P": r["P"], "impl": r["line"], "model": line[:600]})
 
 
